@@ -11,6 +11,12 @@ package main
 // `c_userData_len`), in order of first appearance; models pass them BY NAME. A comparison whose
 // operands are not of basic type (`f != nil`) is a Bool leaf as a whole.
 //
+// time.Time values are `Int` here (nanoseconds on one monotonic clock, zero Time = 0): `t.Add(d)`, `t.Sub(u)`,
+// `t.Before(u)`, `t.After(u)`, `t.IsZero()`, `time.Time{}`, `time.Since(t)` are translated to integer arithmetic;
+// `time.Now()` is the leaf `time_Now`. `time.Duration(f)` of a float64 truncates toward zero (`Gen.truncR/truncF`),
+// `d.Seconds()` is `Gen.durSeconds/durSecondsF`. A site that mentions float64 is emitted twice (`_Rat`, `_Float`).
+// A dereferenced pointer of basic type (`*consumed`) is a leaf.
+//
 // A site is addressed by (function, kind, anchor text, ordinal among the matches, expected number
 // of matches; anchors avoid comparison operators so that a changed operator changes the def, not the address): if the number of matches changes the translator fails (the code was restructured);
 // if only the expression changes the def changes, and the theorems/models that use it notice.
@@ -24,11 +30,12 @@ import (
 )
 
 type exprSite struct {
-	name   string // Lean def
-	fn     string // "Recv.name" or "name"
-	kind   string // "cond": if-condition containing anchor; "assign": RHS of `anchor = …` / `anchor := …`; "arg": first argument of the call `anchor(…)`;
+	name string // Lean def
+	fn   string // "Recv.name" or "name"
+	kind string // "cond": if-condition containing anchor; "assign": RHS of `anchor = …` / `anchor := …`; "arg": first argument of the call `anchor(…)`;
 	// "kv": value of the composite-literal field `anchor: …`; "ret": the single result of a `return` whose text contains anchor;
 	// "for": condition of a `for` containing anchor; "incr": RHS of `anchor += …`
+	// "return": as "ret"; "opassign": the NEW value `anchor + …` / `anchor - …` of `anchor += …` / `anchor -= …` (the operator is part of the def)
 	anchor string
 	index  int // which of the matches (source order)
 	count  int // how many matches the function must have
@@ -145,6 +152,111 @@ var exprSites = []exprSite{
 	{"ifwd_stale", "Association.handleIForwardTSN", "cond", "sna32LTE", 0, 1},
 	{"reset_due", "Association.resetStreamsIfAny", "cond", "resetRequest.senderLastTSN", 0, 1},
 	{"sack_pending", "Association.gatherOutboundSackPackets", "cond", "a.ackState", 0, 1},
+
+	// ---- RACK / PTO / TLR (Model/Rack.lean) ----
+	// RTT sampling and "newest delivered" bookkeeping of processSelectiveAck (cumulative loop = 0, gap loop = 1)
+	{"psa_cumMeasurable", "Association.processSelectiveAck", "cond", "a.minTSN2MeasureRTT", 0, 2},
+	{"psa_gapMeasurable", "Association.processSelectiveAck", "cond", "a.minTSN2MeasureRTT", 1, 2},
+	{"psa_cumOriginal", "Association.processSelectiveAck", "cond", "chunkPayload.nSent", 0, 2},
+	{"psa_gapOriginal", "Association.processSelectiveAck", "cond", "chunkPayload.nSent", 1, 2},
+	{"psa_cumRttMs", "Association.processSelectiveAck", "assign", "rtt", 0, 2},
+	{"psa_gapRttMs", "Association.processSelectiveAck", "assign", "rtt", 1, 2},
+	{"psa_cumNewer", "Association.processSelectiveAck", "cond", "chunkPayload.since.After", 0, 2},
+	{"psa_gapNewer", "Association.processSelectiveAck", "cond", "chunkPayload.since.After", 1, 2},
+	{"cumAck_allAcked", "Association.onCumulativeTSNAckPointAdvanced", "cond", "a.inflightQueue.size()", 0, 1},
+	// windowedMin
+	{"wmin_cutoff", "windowedMin.prune", "assign", "cutoff", 0, 1},
+	// onRackAfterSACK
+	{"rack_hwAdvances", "Association.onRackAfterSACK", "cond", "a.rackHighestDeliveredOrigTSN", 0, 1},
+	{"rack_newerDelivered", "Association.onRackAfterSACK", "cond", "newestDeliveredSendTime.After", 0, 1},
+	{"rack_minRTTValid", "Association.onRackAfterSACK", "cond", "minRTT", 0, 1},
+	{"rack_haveMinRTT", "Association.onRackAfterSACK", "cond", "a.rackMinRTT", 0, 3},
+	{"rack_reoBase", "Association.onRackAfterSACK", "assign", "base", 0, 1},
+	{"rack_suppressReoWnd", "Association.onRackAfterSACK", "cond", "!a.rackReorderingSeen", 0, 1},
+	{"rack_initReoWnd", "Association.onRackAfterSACK", "cond", "base", 0, 1},
+	{"rack_dupInflates", "Association.onRackAfterSACK", "cond", "sack.duplicateTSN", 0, 1},
+	{"rack_reoInflated", "Association.onRackAfterSACK", "opassign", "a.rackReoWnd", 0, 1},
+	{"rack_keepInit", "Association.onRackAfterSACK", "assign", "a.rackKeepInflatedRecoveries", 0, 1},
+	{"rack_keepDecrements", "Association.onRackAfterSACK", "cond", "a.rackKeepInflatedRecoveries", 0, 2},
+	{"rack_keepExpired", "Association.onRackAfterSACK", "cond", "a.rackKeepInflatedRecoveries", 1, 2},
+	{"rack_reoAfterKeep", "Association.onRackAfterSACK", "assign", "a.rackReoWnd", 2, 4},
+	{"rack_srttValid", "Association.onRackAfterSACK", "cond", "srttMs", 0, 2},
+	{"rack_srttDur", "Association.onRackAfterSACK", "assign", "srttDur", 0, 1},
+	{"rack_reoAboveSrtt", "Association.onRackAfterSACK", "cond", "srttDur", 0, 1},
+	{"rack_haveDelivered", "Association.onRackAfterSACK", "cond", "a.rackDeliveredTime.IsZero()", 0, 2},
+	{"rack_skipDead", "Association.onRackAfterSACK", "cond", "chunk.acked", 0, 1},
+	{"rack_skipResent", "Association.onRackAfterSACK", "cond", "chunk.retransmit", 0, 1},
+	{"rack_tooNew", "Association.onRackAfterSACK", "cond", "chunk.since.Add", 0, 1},
+	{"rack_armTimer", "Association.onRackAfterSACK", "cond", "a.rackDeliveredTime.IsZero()", 1, 2},
+	{"rack_rtt", "Association.onRackAfterSACK", "assign", "rackRTT", 0, 1},
+	{"rack_timerDur", "Association.onRackAfterSACK", "arg", "a.startRackTimer", 0, 1},
+	{"rack_ptoIdle", "Association.onRackAfterSACK", "cond", "a.inflightQueue.size()", 0, 2},
+	{"rack_ptoSrttValid", "Association.onRackAfterSACK", "cond", "srttMs", 1, 2},
+	{"rack_ptoSrtt", "Association.onRackAfterSACK", "assign", "srtt", 0, 1},
+	{"rack_ptoExtra", "Association.onRackAfterSACK", "assign", "extra", 0, 2},
+	{"rack_ptoSingle", "Association.onRackAfterSACK", "cond", "a.inflightQueue.size()", 1, 2},
+	{"rack_pto", "Association.onRackAfterSACK", "assign", "pto", 0, 2},
+	{"rack_ptoNoRTT", "Association.onRackAfterSACK", "assign", "pto", 1, 2},
+	// schedulePTOAfterSendLocked (the same computation, written a second time in the code)
+	{"ptoSend_idle", "Association.schedulePTOAfterSendLocked", "cond", "a.inflightQueue.size()", 0, 2},
+	{"ptoSend_srttValid", "Association.schedulePTOAfterSendLocked", "cond", "srttMs", 0, 1},
+	{"ptoSend_srtt", "Association.schedulePTOAfterSendLocked", "assign", "srtt", 0, 1},
+	{"ptoSend_extra", "Association.schedulePTOAfterSendLocked", "assign", "extra", 0, 2},
+	{"ptoSend_single", "Association.schedulePTOAfterSendLocked", "cond", "a.inflightQueue.size()", 1, 2},
+	{"ptoSend_pto", "Association.schedulePTOAfterSendLocked", "assign", "pto", 0, 2},
+	{"ptoSend_noRTT", "Association.schedulePTOAfterSendLocked", "assign", "pto", 1, 2},
+	// the two deadlines and the firing test of timerLoop
+	{"rackTimer_disarms", "Association.startRackTimer", "cond", "dur", 0, 1},
+	{"rackTimer_deadline", "Association.startRackTimer", "assign", "a.rackDeadline", 1, 2},
+	{"ptoTimer_disarms", "Association.startPTOTimer", "cond", "dur", 0, 1},
+	{"ptoTimer_deadline", "Association.startPTOTimer", "assign", "a.ptoDeadline", 1, 2},
+	{"timerLoop_rackDue", "Association.timerLoop", "cond", "a.rackDeadline.IsZero()", 0, 1},
+	{"timerLoop_ptoDue", "Association.timerLoop", "cond", "a.ptoDeadline.IsZero()", 0, 1},
+	// onRackTimeoutLocked
+	{"rackTimeout_noDelivered", "Association.onRackTimeoutLocked", "cond", "a.rackDeliveredTime.IsZero()", 0, 1},
+	{"rackTimeout_skipDead", "Association.onRackTimeoutLocked", "cond", "chunk.acked", 0, 1},
+	{"rackTimeout_skipResent", "Association.onRackTimeoutLocked", "cond", "chunk.retransmit", 0, 1},
+	{"rackTimeout_tooNew", "Association.onRackTimeoutLocked", "cond", "chunk.since.Add", 0, 1},
+	// onPTOTimerLocked
+	{"pto_idle", "Association.onPTOTimerLocked", "cond", "a.inflightQueue.size()", 0, 1},
+	{"pto_beginsTLR", "Association.onPTOTimerLocked", "cond", "a.tlrActive", 0, 1},
+	{"pto_hasPending", "Association.onPTOTimerLocked", "cond", "a.pendingQueue.size()", 0, 1},
+	{"pto_scanTSN", "Association.onPTOTimerLocked", "arg", "a.inflightQueue.get", 0, 1},
+	{"pto_skipDead", "Association.onPTOTimerLocked", "cond", "c.acked", 0, 1},
+	{"pto_marks", "Association.onPTOTimerLocked", "cond", "latest", 0, 1},
+	// TLR
+	{"tlr_srttValid", "Association.tlrFirstRTTDurationLocked", "cond", "srttMs", 0, 1},
+	{"tlr_firstRTTDur", "Association.tlrFirstRTTDurationLocked", "return", "srttMs", 0, 1},
+	{"tlr_firstRTTDefault", "Association.tlrFirstRTTDurationLocked", "return", "time.Second", 0, 1},
+	{"tlrPhase_skip", "Association.tlrUpdatePhaseLocked", "cond", "a.tlrActive", 0, 1},
+	{"tlrPhase_noStart", "Association.tlrUpdatePhaseLocked", "cond", "a.tlrStartTime.IsZero()", 0, 1},
+	{"tlrPhase_firstOver", "Association.tlrUpdatePhaseLocked", "cond", "currTime.Sub", 0, 1},
+	{"tlr_budgetScaled", "Association.tlrCurrentBurstBudgetScaledLocked", "return", "units", 0, 1},
+	{"tlr_scanTSN", "Association.tlrHighestOutstandingTSNLocked", "assign", "tsn", 0, 1},
+	{"tlrLoss_firstStepped", "Association.tlrApplyAdditionalLossLocked", "opassign", "a.tlrBurstFirstRTTUnits", 0, 1},
+	{"tlrLoss_firstBelowMin", "Association.tlrApplyAdditionalLossLocked", "cond", "a.tlrBurstFirstRTTUnits", 0, 1},
+	{"tlrLoss_firstMin", "Association.tlrApplyAdditionalLossLocked", "assign", "a.tlrBurstFirstRTTUnits", 0, 1},
+	{"tlrLoss_laterStepped", "Association.tlrApplyAdditionalLossLocked", "opassign", "a.tlrBurstLaterRTTUnits", 0, 1},
+	{"tlrLoss_laterBelowMin", "Association.tlrApplyAdditionalLossLocked", "cond", "a.tlrBurstLaterRTTUnits", 0, 1},
+	{"tlrLoss_laterMin", "Association.tlrApplyAdditionalLossLocked", "assign", "a.tlrBurstLaterRTTUnits", 0, 1},
+	{"tlrFinish_leavesFirst", "Association.tlrMaybeFinishLocked", "cond", "ackProgress", 0, 1},
+	{"tlrFinish_done", "Association.tlrMaybeFinishLocked", "cond", "a.tlrEndTSN", 0, 1},
+	{"tlrFinish_clean", "Association.tlrMaybeFinishLocked", "cond", "!a.tlrHadAdditionalLoss", 0, 1},
+	{"tlrFinish_resetsBurst", "Association.tlrMaybeFinishLocked", "cond", "tlrGoodOpsResetThreshold", 0, 1},
+	{"tlrFinish_firstDefault", "Association.tlrMaybeFinishLocked", "assign", "a.tlrBurstFirstRTTUnits", 0, 1},
+	{"tlrFinish_laterDefault", "Association.tlrMaybeFinishLocked", "assign", "a.tlrBurstLaterRTTUnits", 0, 1},
+	{"tlrAllow_inactive", "Association.tlrAllowSendLocked", "cond", "a.tlrActive", 0, 1},
+	{"tlrAllow_free", "Association.tlrAllowSendLocked", "cond", "estBytes", 0, 1},
+	{"tlrAllow_need", "Association.tlrAllowSendLocked", "assign", "needScaled", 0, 1},
+	{"tlrAllow_refuses", "Association.tlrAllowSendLocked", "cond", "*consumed", 0, 1},
+	{"tlrAllow_spent", "Association.tlrAllowSendLocked", "opassign", "*budgetScaled", 0, 1},
+	{"tlrAllow_clamps", "Association.tlrAllowSendLocked", "cond", "*budgetScaled", 1, 2},
+	// creation: defaults of the burst units and the RACK high-watermark (D20)
+	{"init_tlrFirst", "createAssociationFromConfigWithTsn", "assign", "assoc.tlrBurstFirstRTTUnits", 0, 1},
+	{"init_tlrLater", "createAssociationFromConfigWithTsn", "assign", "assoc.tlrBurstLaterRTTUnits", 0, 1},
+	{"init_rackHighWatermark", "createAssociationFromConfigWithTsn", "assign", "assoc.rackHighestDeliveredOrigTSN", 0, 1},
+	{"init_wcDelAckUnset", "createAssociationFromConfigWithTsn", "cond", "assoc.rack.rackWCDelAck", 0, 1},
+	{"init_wcDelAckDefault", "createAssociationFromConfigWithTsn", "assign", "assoc.rack.rackWCDelAck", 1, 2},
 }
 
 type leaf struct{ name, lty string }
@@ -196,6 +308,10 @@ func (t *ftr) leafFor(e ast.Expr) (string, bool) {
 			return t.addLeaf(x, x.Name), true
 		}
 	case *ast.SelectorExpr:
+		if isBasic(t.typeOf(x)) || isTimeType(t.typeOf(x)) {
+			return t.addLeaf(x, sanitise(exprText(x))), true
+		}
+	case *ast.StarExpr:
 		if isBasic(t.typeOf(x)) {
 			return t.addLeaf(x, sanitise(exprText(x))), true
 		}
@@ -225,8 +341,11 @@ func (t *ftr) leafFor(e ast.Expr) (string, bool) {
 		if sel, ok := x.Fun.(*ast.SelectorExpr); ok {
 			if id, ok := sel.X.(*ast.Ident); ok {
 				if _, isPkg := t.c.info.Uses[id].(*types.PkgName); isPkg {
-					return "", false // math.Min etc.: translated or rejected
+					return "", false // math.Min, time.Now etc.: translated or rejected
 				}
+			}
+			if t.isTimeMethod(sel) {
+				return "", false // t.Add(d), t.Before(u), d.Seconds() …: translated
 			}
 		}
 		if isBasic(t.typeOf(x)) {
@@ -256,8 +375,21 @@ func (c *ctx) findSite(s exprSite) (ast.Expr, string) {
 			if s.kind == "incr" && len(x.Lhs) == 1 && len(x.Rhs) == 1 && exprText(x.Lhs[0]) == s.anchor && x.Tok == token.ADD_ASSIGN {
 				found = append(found, x.Rhs[0])
 			}
+			if s.kind == "opassign" && len(x.Lhs) == 1 && len(x.Rhs) == 1 && exprText(x.Lhs[0]) == s.anchor &&
+				(x.Tok == token.ADD_ASSIGN || x.Tok == token.SUB_ASSIGN) {
+				// the NEW value `lhs op rhs`, so that the operator is part of the def
+				op := token.ADD
+				if x.Tok == token.SUB_ASSIGN {
+					op = token.SUB
+				}
+				bin := &ast.BinaryExpr{X: x.Lhs[0], OpPos: x.TokPos, Op: op, Y: x.Rhs[0]}
+				if tv, ok := c.info.Types[x.Lhs[0]]; ok {
+					c.info.Types[bin] = types.TypeAndValue{Type: tv.Type}
+				}
+				found = append(found, bin)
+			}
 		case *ast.ReturnStmt:
-			if s.kind == "ret" && len(x.Results) == 1 && strings.Contains(exprText(x.Results[0]), s.anchor) {
+			if (s.kind == "ret" || s.kind == "return") && len(x.Results) == 1 && strings.Contains(exprText(x.Results[0]), s.anchor) {
 				found = append(found, x.Results[0])
 			}
 		case *ast.CallExpr:
@@ -285,27 +417,119 @@ func (c *ctx) genExprSites(b *strings.Builder) {
 	b.WriteString("/-! ## expression sites (see go/extract/exprs.go): one expression of a large function each; leaves are parameters -/\n\n")
 	for _, s := range exprSites {
 		e, pos := c.findSite(s)
-		var leaves []leaf
-		t := &ftr{c: c, float: "Rat", fn: s.name, leaves: &leaves}
-		var body, rty string
-		func() {
-			defer func() {
-				if r := recover(); r != nil {
-					if u, ok := r.(unsupported); ok {
-						die("expression site left the translatable subset: %s", u.msg)
+		emit := func(fl, suffix string) bool {
+			var leaves []leaf
+			t := &ftr{c: c, float: fl, fn: s.name, leaves: &leaves}
+			var body, rty string
+			func() {
+				defer func() {
+					if r := recover(); r != nil {
+						if u, ok := r.(unsupported); ok {
+							die("expression site left the translatable subset: %s", u.msg)
+						}
+						panic(r)
 					}
-					panic(r)
-				}
+				}()
+				body = t.expr(e)
+				rty = t.leanType(e, t.typeOf(e))
 			}()
-			body = t.expr(e)
-			rty = t.leanType(e, t.typeOf(e))
-		}()
-		var params []string
-		for _, l := range leaves {
-			params = append(params, fmt.Sprintf("(%s : %s)", l.name, l.lty))
+			if t.uses && suffix == "" {
+				return true // mentions float64: emitted as _Rat and _Float instead
+			}
+			var params []string
+			for _, l := range leaves {
+				params = append(params, fmt.Sprintf("(%s : %s)", l.name, l.lty))
+			}
+			fmt.Fprintf(b, "/-- Go: %s (%s), %s `%s` -/\ndef %s %s : %s :=\n  %s\n\n", s.fn, pos, s.kind, exprText(e), leanName(s.name+suffix), strings.Join(params, " "), rty, body)
+			return false
 		}
-		fmt.Fprintf(b, "/-- Go: %s (%s), %s `%s` -/\ndef %s %s : %s :=\n  %s\n\n", s.fn, pos, s.kind, exprText(e), leanName(s.name), strings.Join(params, " "), rty, body)
+		if emit("Rat", "") {
+			emit("Rat", "_Rat")
+			emit("Float", "_Float")
+		}
 	}
+}
+
+// isTimeMethod: a method selected on a value of type time.Time or time.Duration
+func (t *ftr) isTimeMethod(sel *ast.SelectorExpr) bool {
+	s, ok := t.c.info.Selections[sel]
+	if !ok || s.Kind() != types.MethodVal {
+		return false
+	}
+	rt := s.Recv()
+	return isTimeType(rt) || isDurationType(rt)
+}
+
+// timeCall translates the `time` package calls of the expression subset (see the file comment).
+func (t *ftr) timeCall(x *ast.CallExpr) (string, bool) {
+	if t.leaves == nil {
+		return "", false
+	}
+	sel, ok := x.Fun.(*ast.SelectorExpr)
+	if !ok {
+		return "", false
+	}
+	now := func() string {
+		lty := "Int"
+		for _, l := range *t.leaves {
+			if l.name == "time_Now" {
+				return l.name
+			}
+		}
+		*t.leaves = append(*t.leaves, leaf{"time_Now", lty})
+		return "time_Now"
+	}
+	if id, ok := sel.X.(*ast.Ident); ok {
+		if pn, ok := t.c.info.Uses[id].(*types.PkgName); ok && pn.Imported().Path() == "time" {
+			switch sel.Sel.Name {
+			case "Now":
+				if len(x.Args) == 0 {
+					return now(), true
+				}
+			case "Since":
+				if len(x.Args) == 1 {
+					a := t.expr(x.Args[0])
+					return fmt.Sprintf("(%s - %s)", now(), a), true
+				}
+			case "Until":
+				if len(x.Args) == 1 {
+					a := t.expr(x.Args[0])
+					return fmt.Sprintf("(%s - %s)", a, now()), true
+				}
+			}
+			return "", false
+		}
+	}
+	if !t.isTimeMethod(sel) {
+		return "", false
+	}
+	recv := t.expr(sel.X)
+	isT := isTimeType(t.c.info.Selections[sel].Recv())
+	arg := func() string {
+		if len(x.Args) != 1 {
+			t.fail(x, "time method arity")
+		}
+		return t.expr(x.Args[0])
+	}
+	switch {
+	case isT && sel.Sel.Name == "Add":
+		return fmt.Sprintf("(%s + %s)", recv, arg()), true
+	case isT && sel.Sel.Name == "Sub":
+		return fmt.Sprintf("(%s - %s)", recv, arg()), true
+	case isT && sel.Sel.Name == "Before":
+		return fmt.Sprintf("(decide (%s < %s))", recv, arg()), true
+	case isT && sel.Sel.Name == "After":
+		return fmt.Sprintf("(decide (%s > %s))", recv, arg()), true
+	case isT && sel.Sel.Name == "Equal":
+		return fmt.Sprintf("(%s == %s)", recv, arg()), true
+	case isT && sel.Sel.Name == "IsZero" && len(x.Args) == 0:
+		return fmt.Sprintf("(%s == (0 : Int))", recv), true
+	case !isT && sel.Sel.Name == "Seconds" && len(x.Args) == 0:
+		t.uses = true
+		return fmt.Sprintf("(Gen.durSeconds%s %s)", t.fsuffix(), recv), true
+	}
+	t.fail(x, "time method %s", sel.Sel.Name)
+	return "", false
 }
 
 // ---- lock paths ---------------------------------------------------------------------------
